@@ -2,7 +2,8 @@
 
 Spec: spec/SessionOps.tla (values, module files, what a require form denotes),
 spec/Session.tla (interpreters, module loader as a sub-step machine, command
-alphabet), cfgs Session_one / Session_two / Session_wide / Session_pinned.
+alphabet), cfgs Session_one / Session_two / Session_wide / Session_pinned,
+Session_env1 / Session_env2 / Session_pinnedenv.
 
 Binding A (replay along the state graph): TLC explores Session.tla and prints
 every command-level transition (EDGE: idle state, command, predicted outcome,
@@ -449,7 +450,10 @@ class Graph:
             seen.add((p, ck))
             self.out[p].append((e["c"], e["o"], q))
         for p in self.out:
-            self.out[p].sort(key=lambda x: json.dumps(x[0], sort_keys=True))
+            # (a call with a child of the session last: on a tree where it ruins the
+            # interpreter the other commands of the state have then been seen)
+            self.out[p].sort(key=lambda x: (x[0]["op"] in ENV_OPS and x[0]["id"] == "child",
+                                            json.dumps(x[0], sort_keys=True)))
         self.fsdefs = res.records("FSDEF")
         return self
 
@@ -819,21 +823,46 @@ def gen_label(gen):
     return ",".join(f"{e['m']}>{e['d']}:{e['form']}{'!' if e['poke'] else ''}" for e in gen)
 
 
-def check_pinned(run):
+class Ahead:
+    """TLC runs started ahead of their use, each in its own JVM, so that model
+    checking overlaps with replaying; results are taken in program order."""
+
+    def __init__(self, parallel=4):
+        from concurrent.futures import ThreadPoolExecutor
+        self.pool = ThreadPoolExecutor(max_workers=parallel)
+        self.futs = {}
+
+    def start(self, cfg, **kw):
+        self.futs[cfg] = self.pool.submit(run_tlc, "Session", cfg, **kw)
+
+    def graph(self, cfg, **kw):
+        self.start(cfg, coverage="simulate" not in kw, timeout=3000, **kw)
+
+    def take(self, cfg):
+        return self.futs.pop(cfg).result()
+
+    def close(self):
+        self.pool.shutdown(wait=True, cancel_futures=True)
+
+
+PINNED_KW = dict(workers=4, allow_violation=True, timeout=900)
+
+
+def check_pinned(run, ahead):
     """The deviation switch set to the pinned code must give TLC the C10
     counterexample - otherwise the invariants are vacuous."""
-    res = run_tlc("Session", "Session_pinned", workers=4, allow_violation=True, timeout=900)
+    res = ahead.take("Session_pinned")
     run.add_tlc(res, "Session with UnwindOnFailure=FALSE (pinned code): counterexample expected")
     if res.ok or "Invariant FailIsIdempotent is violated" not in res.out:
         raise MachineryError("Session_pinned: TLC did not find the expected counterexample")
     return re.findall(r'ReqStart\(\[op \|-> "require", i \|-> "i1", n \|-> "", v \|-> 0, id \|-> "(\w+)"', res.out)
 
 
-def check_pinned_env(run):
+def check_pinned_env(run, ahead):
     """Likewise for interpret with a caller environment: with the root never
     detached (the pinned interpret) TLC must find an interpreter resolving
     names through a session that is not its own / through a cycle."""
-    res = run_tlc("Session", "Session_pinnedenv", workers=4, allow_violation=True, timeout=900)
+    res = ahead.take("Session_pinnedenv")
     run.add_tlc(res, "Session with DetachCallerEnv=FALSE (pinned interpret): counterexample expected")
     if res.ok or "Invariant SessionsIsolated is violated" not in res.out:
         raise MachineryError("Session_pinnedenv: TLC did not find the expected counterexample")
@@ -868,8 +897,11 @@ def walk_main(jpath):
     w.start([tuple(r) for r in job["roots"]])
 
 
-def tlc_graph(run, cfg, label, c11=False, off=(), **kw):
-    res = run_tlc("Session", cfg, coverage="simulate" not in kw, timeout=3000, **kw)
+def tlc_graph(run, cfg, label, c11=False, off=(), ahead=None, **kw):
+    if ahead is not None:
+        res = ahead.take(cfg)
+    else:
+        res = run_tlc("Session", cfg, coverage="simulate" not in kw, timeout=3000, **kw)
     for a in ("GenEdge", "GenDone"):
         if not c11:
             res.coverage.pop(a, None)      # the generator is off in c10 mode
@@ -942,10 +974,10 @@ def walk(run, g, interps, roots, fsdefs, mode, verdict, prefix, loadcap=1, maxle
     return report(run, recs, verdict, prefix, [fsdefs[fi] for (_, fi, _) in roots], interps)
 
 
-def run_graph(run, cfg, interps, label, modes, rng):
+def run_graph(run, cfg, interps, label, modes, rng, ahead=None):
     """One TLC run of Session.tla (c10 mode) + one walk per entry of modes:
     (mode, params) with mode in cover | depth | walks."""
-    g, _ = tlc_graph(run, cfg, label)
+    g, _ = tlc_graph(run, cfg, label, ahead=ahead)
     root = init_id(g, interps)
     res = []
     for mode, params in modes:
@@ -962,17 +994,32 @@ def run_graph(run, cfg, interps, label, modes, rng):
 def run(run):
     quick = run.tier == "quick"
     rng = random.Random(run.seed)
-    total_edges = total_evals = 0
     info = {}
-    reqs = check_pinned(run)
+    ahead = Ahead()
+    try:
+        ahead.graph("Session_one")
+        ahead.start("Session_pinned", **PINNED_KW)
+        ahead.start("Session_pinnedenv", **PINNED_KW)
+        ahead.graph("Session_two")
+        ahead.graph("Session_env1")
+        ahead.graph("Session_env2")
+        run_checks(run, quick, rng, info, ahead)
+    finally:
+        ahead.close()
+
+
+def run_checks(run, quick, rng, info, ahead):
+    total_edges = total_evals = 0
+    reqs = check_pinned(run, ahead)
     info["pinned_counterexample"] = "require %s twice" % (reqs[0] if reqs else "?")
-    envs = check_pinned_env(run)
+    envs = check_pinned_env(run, ahead)
     info["pinned_env_counterexample"] = " ; ".join(f"{i}: {op} ({e} environment)" for op, i, e in envs[:4])
 
     def go(cfg, interps, label, *modes):
         """modes: (name, mode, params)"""
         nonlocal total_edges, total_evals
-        g, res = run_graph(run, cfg, interps, label, [(m, p) for (_, m, p) in modes], rng)
+        g, res = run_graph(run, cfg, interps, label, [(m, p) for (_, m, p) in modes], rng,
+                           ahead if cfg in ahead.futs else None)
         for (name, _, _), (e, v, wall) in zip(modes, res):
             total_edges += e
             total_evals += v
@@ -988,6 +1035,16 @@ def run(run):
         two.append(("two_walks_le30", "walks", {"nwalks": 3000, "maxlen": 30}))
     g1 = go("Session_one", ["i1"], "Session, one interpreter, core alphabet (repaired behaviour)", *one)
     go("Session_two", ["i1", "i2"], "Session, two interleaved interpreters (repaired behaviour)", *two)
+    env1 = [("env_one_cover", "cover", {})]
+    env2 = [("env_two_cover", "cover", {})]
+    if not quick:
+        env1.append(("env_one_histories_le4", "depth", {"maxlen": 4}))
+        env2.append(("env_two_histories_le3", "depth", {"maxlen": 3}))
+        env2.append(("env_two_walks_le30", "walks", {"nwalks": 1500, "maxlen": 30}))
+    go("Session_env1", ["i1"], "Session, one interpreter, interpret with a caller environment (repaired behaviour)",
+       *env1)
+    go("Session_env2", ["i1", "i2"], "Session, two interpreters handed the same caller environment "
+       "(repaired behaviour)", *env2)
     s0 = init_id(g1, ["i1"])
     run.sample({"EDGE": {"from": g1.key[s0], "cmd": g1.out[s0][0][0], "outcome": g1.out[s0][0][1]}})
     run.sample({"STATE.obs": g1.obs[g1.out[s0][-1][2]]})
